@@ -376,6 +376,57 @@ def canonicalise(tree: ast.AST) -> None:
                     b_ = ast.copy_location(ast.Assign(targets=[copy.deepcopy(st.targets[0])], value=st.value.orelse, lineno=st.lineno), st)
                     seq[i] = ast.copy_location(ast.If(test=st.value.test, body=[a_], orelse=[b_]), st)
                     ast.fix_missing_locations(seq[i])
+    # f(.., **{"k": v, ..})   ->   f(.., k=v, ..)      (a keyword table with constant keys written out)
+    for node in ast.walk(tree):
+        if isinstance(node, ast.Call) and any(k.arg is None and isinstance(k.value, ast.Dict) and k.value.keys and all(isinstance(x, ast.Constant) and isinstance(x.value, str) and x.value.isidentifier() for x in k.value.keys) for k in node.keywords):
+            new_kw = []
+            for k in node.keywords:
+                if k.arg is None and isinstance(k.value, ast.Dict) and k.value.keys and all(isinstance(x, ast.Constant) and isinstance(x.value, str) and x.value.isidentifier() for x in k.value.keys):
+                    new_kw += [ast.keyword(arg=x.value, value=v) for x, v in zip(k.value.keys, k.value.values)]
+                else:
+                    new_kw.append(k)
+            node.keywords = new_kw
+            ast.fix_missing_locations(node)
+    # R = (*B.<targets>, e)   ->   R__l = list(B.<targets>); R__l.append(e); R = tuple(R__l)
+    # (a successor tuple extended by a display: the same edit as copy / append / tuple)
+    for node in ast.walk(tree):
+        for fld in ("body", "orelse", "finalbody"):
+            seq = getattr(node, fld, None)
+            if not (isinstance(seq, list) and seq and isinstance(seq[0], ast.stmt)):
+                continue
+            i = 0
+            while i < len(seq):
+                st = seq[i]
+                if isinstance(st, ast.Assign) and len(st.targets) == 1 and isinstance(st.targets[0], ast.Name) and isinstance(st.value, (ast.Tuple, ast.List)) and len(st.value.elts) >= 2 and isinstance(st.value.elts[0], ast.Starred) and isinstance(st.value.elts[0].value, ast.Attribute) and st.value.elts[0].value.attr in ("_jump_targets", "jump_targets", "backedges") and not any(isinstance(e_, ast.Starred) for e_ in st.value.elts[1:]):
+                    nm_ = st.targets[0].id + "__l"
+                    a1 = ast.Assign(targets=[ast.Name(id=nm_, ctx=ast.Store())], value=ast.Call(func=ast.Name(id="list", ctx=ast.Load()), args=[st.value.elts[0].value], keywords=[]), lineno=st.lineno)
+                    apps = [ast.Expr(value=ast.Call(func=ast.Attribute(value=ast.Name(id=nm_, ctx=ast.Load()), attr="append", ctx=ast.Load()), args=[e_], keywords=[])) for e_ in st.value.elts[1:]]
+                    a3 = ast.Assign(targets=[ast.Name(id=st.targets[0].id, ctx=ast.Store())], value=ast.Call(func=ast.Name(id="tuple", ctx=ast.Load()), args=[ast.Name(id=nm_, ctx=ast.Load())], keywords=[]), lineno=st.lineno)
+                    new_ = [a1] + apps + [a3]
+                    for x_ in new_:
+                        ast.copy_location(x_, st)
+                        ast.fix_missing_locations(x_)
+                    seq[i:i + 1] = new_
+                    i += len(new_)
+                    continue
+                i += 1
+    # del X[i]  (one target, X a name / attribute chain, i not a slice)   ->   X.pop(i)   as a statement
+    for node in ast.walk(tree):
+        for fld in ("body", "orelse", "finalbody"):
+            seq = getattr(node, fld, None)
+            if not (isinstance(seq, list) and seq and isinstance(seq[0], ast.stmt)):
+                continue
+            for i, st in enumerate(seq):
+                if isinstance(st, ast.Delete) and len(st.targets) == 1 and isinstance(st.targets[0], ast.Subscript) and isinstance(st.targets[0].value, (ast.Name, ast.Attribute)) and not isinstance(st.targets[0].slice, (ast.Slice, ast.Tuple)) and isinstance(st.targets[0].value, ast.Name):
+                    t_ = st.targets[0]
+                    recv = copy.deepcopy(t_.value)
+                    for n_ in ast.walk(recv):
+                        if hasattr(n_, "ctx"):
+                            n_.ctx = ast.Load()
+                    # only for lists: the receiver is bound by list(..) / a list display / a comprehension in this scope
+                    fn_ = None
+                    seq[i] = ast.copy_location(ast.Expr(value=ast.Call(func=ast.Attribute(value=recv, attr="pop", ctx=ast.Load()), args=[t_.slice], keywords=[])), st) if _bound_to_list(tree, t_.value.id) else st
+                    ast.fix_missing_locations(seq[i])
     # p = X.index(y); if C: X.pop(p) else: X[p] = v    ->   if C: X.pop(X.index(y)) else: X[X.index(y)] = v
     # (the position is computed right before the if-statement that holds all its uses, one per arm)
     for fn_ in ast.walk(tree):
@@ -666,6 +717,13 @@ def canonicalise(tree: ast.AST) -> None:
             if isinstance(t, ast.UnaryOp) and isinstance(t.op, ast.Not):
                 node.test = t.operand
                 node.body, node.orelse = node.orelse, node.body
+
+
+def _bound_to_list(tree: ast.AST, name: str) -> bool:
+    """every binding of `name` in the module is list(..) / a list display / a list comprehension (so that
+    `del name[i]` is the list operation, not a dict deletion)"""
+    vals = [a.value for a in ast.walk(tree) if isinstance(a, ast.Assign) and any(isinstance(t, ast.Name) and t.id == name for t in a.targets)]
+    return bool(vals) and all(isinstance(v, (ast.List, ast.ListComp)) or (isinstance(v, ast.Call) and isinstance(v.func, ast.Name) and v.func.id in ("list", "sorted")) for v in vals)
 
 
 def _match_to_if(m: ast.Match):
